@@ -88,8 +88,9 @@ def check(run):
                             env={"VERIF_IN": inp, "VERIF_FREE_OUT": free,
                                  "VERIF_FREE_TRACES": "400" if thorough else "60", "VERIF_FREE_OPS": "40"})
     if rc != 0:
-        run.violation("datarace:cacheutil", "data race reported in util/cacheutil under the driver", {"log": out[-6000:]})
-        return
+        # the race detector reported a race on the state the property is about; the traces were still written
+        m = re.search(r"WARNING: DATA RACE\n(?:.*\n){0,40}", out)
+        run.violation("datarace:cacheutil", "data race reported in util/cacheutil under the driver", {"log": (m.group(0) if m else out[-6000:])})
     for j in jobs:
         keys = "{" + ", ".join('"%s"' % k for k in j["keys"]) + "}"
         validate(run, j["out"], j["kind"], j["cap"], keys, "replay")
